@@ -382,7 +382,11 @@ Section Data.
       | A_numDigit | A_negDigit => if has_num then Some (upd_num d (add_digit (d_num d) b)) else Some d
       | A_numSpc => if has_num then emit_num d else Some d
       | A_numNewline => opt_bind (if has_num then emit_num d else Some d) (fun d => Some (upd_nl d))
-      | A_expSign => if has_num && beqb b x2d then Some (upd_num d (set_negexp (d_num d))) else Some d
+      | A_expSign =>
+          if has_num then
+            let n := if is_big (d_num d) then push_big (d_num d) b else d_num d in
+            Some (upd_num d (if beqb b x2d then set_negexp n else n))
+          else Some d
       | A_expDigit => if has_num then Some (upd_num d (add_exp (d_num d) b)) else Some d
       | A_uOk =>
           if has_num then
